@@ -19,7 +19,7 @@ for s in "$@"; do
   if ! git -C $WT apply $d/patch.diff 2>/dev/null; then echo "$s APPLY-FAIL" | tee -a $OUT; continue; fi
   line="$s"
   for id in $prop $also; do
-    VERIF_REPO=$WT VERIF_OUT=/tmp/matrix_out timeout 1500 ./check $id $T > /tmp/seeded_$s.$id.log 2>&1; rc=$?
+    VERIF_STOP_AT_FIRST=1 VERIF_REPO=$WT VERIF_OUT=/tmp/matrix_out timeout 1500 ./check $id $T > /tmp/seeded_$s.$id.log 2>&1; rc=$?
     msg=$(grep -A1 -m1 VIOLATION /tmp/seeded_$s.$id.log | tail -1 | cut -c1-140)
     line="$line | $id rc=$rc $msg"
   done
